@@ -435,7 +435,7 @@ pub fn c09(tier: &str, seed: u64) -> Vec<Case> {
                                     if e.class != udp { c = c.fail("opt-class", format!("CLASS {} for UDP size {}", e.class, udp)); }
                                     let rfc_ttl = (((*rc as u32) >> 4) & 0xFF) << 24 | (ver as u32) << 16;
                                     if e.ttl != rfc_ttl {
-                                        if e.ttl == rfc_ttl.swap_bytes() { c = c.fail("opt-ttl-byte-order", format!("TTL {:#010x}, RFC 6891 puts extended RCODE and VERSION in the two high octets: {:#010x}", e.ttl, rfc_ttl)); }
+                                        if e.ttl == rfc_ttl.swap_bytes() { c = c.fail_if_nothing_else("opt-ttl-byte-order", format!("TTL {:#010x}, RFC 6891 puts extended RCODE and VERSION in the two high octets: {:#010x}", e.ttl, rfc_ttl)); }
                                         else { c = c.fail("opt-ttl-wrong", format!("TTL {:#010x}, expected {:#010x}", e.ttl, rfc_ttl)); }
                                     }
                                     let mut want = vec![];
@@ -546,7 +546,7 @@ pub fn c09(tier: &str, seed: u64) -> Vec<Case> {
                     let want_rc = rc as u16;
                     let ok = o.version == opt.version && (q.rcode() as u16 == want_rc || (want_rc == 15 && q.rcode() == RCODE::Reserved));
                     if !ok {
-                        if rfc_layout { c = c.fail("opt-ttl-byte-order", format!("an RFC 6891 OPT TTL (version {}, rcode {:?}) is read as version {} rcode {:?}", opt.version, rc, o.version, q.rcode())); }
+                        if rfc_layout { c = c.fail_if_nothing_else("opt-ttl-byte-order", format!("an RFC 6891 OPT TTL (version {}, rcode {:?}) is read as version {} rcode {:?}", opt.version, rc, o.version, q.rcode())); }
                         else { c = c.fail("opt-read", format!("version {} rcode {:?} read as version {} rcode {:?}", opt.version, rc, o.version, q.rcode())); }
                     }
                 }
